@@ -52,6 +52,20 @@ MUTANTS = [
 ''', '''    self._comments_map = comments_map
     self._source_lines = source_lines
 ''', ['ok:malt.pyct.origin_info.OriginResolver.__init__']),
+    ('c13-overload-by-name', 'malt/operators/py_builtins.py',
+     '''  if f in SUPPORTED_BUILTINS:
+    return BUILTIN_FUNCTIONS_MAP[f.__name__]
+  return f''', '''  return BUILTIN_FUNCTIONS_MAP.get(getattr(f, '__name__', None), f)''',
+     ['malt.operators.py_builtins.overload_of']),
+    ('c08-copy-from-resets-declarations', 'malt/pyct/static_analysis/activity.py',
+     '    self.bound = copy.copy(other.bound)\n', '    self.bound = copy.copy(other.bound)\n    self.globals = copy.copy(other.globals)\n',
+     ['malt.pyct.static_analysis.activity.Scope.copy_from']),
+    ('c08-copy-from-aliases-read', 'malt/pyct/static_analysis/activity.py',
+     '    self.read = copy.copy(other.read)', '    self.read = other.read',
+     ['malt.pyct.static_analysis.activity.Scope.copy_from']),
+    ('c08-merge-from-forgets-bound', 'malt/pyct/static_analysis/activity.py',
+     '    self.bound.update(other.bound)\n', '',
+     ['malt.pyct.static_analysis.activity.Scope.merge_from']),
     ('c16-exit-guard-swapped', 'malt/operators/function_wrappers.py',
      '''  def __exit__(self, exc_type, exc_val, exc_tb):
     if self.options.user_requested:''', '''  def __exit__(self, exc_type, exc_val, exc_tb):
